@@ -135,7 +135,7 @@ func corrLayout(o corrOpts) *res.Summary {
 				mk("permute+blank+rename", func(v *gen.Options) { v.PermuteDecls, v.BlankLines, v.RenameLocals = true, true, true })
 			}
 		} else {
-			for _, sp := range []int{1, 3, 4, 5} {
+			for _, sp := range []int{1, 2, 3, 4, 5} {
 				v := base
 				v.Spelling = sp
 				vs = append(vs, variant{fmt.Sprintf("spelling%d", sp), v})
@@ -221,7 +221,7 @@ func corrLayout(o corrOpts) *res.Summary {
 		os.RemoveAll(dir)
 	}
 	_ = filepath.Join
-	sum.Rule = "per seed one base program and its variants (layout: declaration permutation, file reassignment, blank lines + comments, local renaming, composed; spelling: package-level alias, renamed import, parenthesised types, function-local aliases of one name) rendered into one module; the real analyzers run on all of them; keyed sets (package|code|statement tag, and package|code|type for TONL01/PKGO01) of each variant must equal the base's; every variant is also compared with the model; non-trivial = base program with diagnostics"
+	sum.Rule = "per seed one base program and its variants (layout: declaration permutation, file reassignment, blank lines + comments, local renaming, composed; spelling: package-level alias, alias of an alias, renamed import, parenthesised types, function-local aliases of one name) rendered into one module; the real analyzers run on all of them; keyed sets (package|code|statement tag, and package|code|type for TONL01/PKGO01) of each variant must equal the base's; every variant is also compared with the model; non-trivial = base program with diagnostics"
 	return sum
 }
 
